@@ -12,9 +12,16 @@ def gen_spec(rng):
     if by == k:
         by = "self"
     names = rng.sample(["n10", "n20", "n30"], rng.choice([1, 1, 2]))
-    return "k=%s by=%s names=%s valid=%s eku=%s wf=%s" % (
+    spec = "k=%s by=%s names=%s valid=%s eku=%s wf=%s" % (
         k, by, ",".join(names), rng.choice(["ok", "ok", "ok", "expired", "future"]),
         rng.choice(["none", "none", "server", "client", "both"]), rng.choice(["ok", "ok", "ok", "ok", "trunc", "flip"]))
+    # another identity's public key, wrapped like a SubjectPublicKeyInfo, planted in the serial number (in front of the
+    # real key) and / or in a private extension (behind it): the identity stays the certificate's own key
+    if rng.random() < 0.3:
+        spec += " decoy=%s" % rng.choice(["1", "2", "3"])
+    if rng.random() < 0.2:
+        spec += " decoyext=%s" % rng.choice(["1", "2", "3"])
+    return spec
 
 
 def run(chk):
